@@ -629,7 +629,8 @@ impl Transaction {
 
     // calculate total fees in block
     pub fn generate_total_fees(&mut self, tx_index: u64, block_id: u64) {
-        // calculate nolan in / out, fees
+        // calculate nolan in / out, fees. slip amounts are supplied by peers, so the sums saturate
+        // instead of wrapping: a wrapped output sum would slip past the total_out > total_in check
         // generate utxoset key for every slip
         let nolan_in = self
             .from
@@ -642,7 +643,7 @@ impl Transaction {
                 }
                 slip.amount
             })
-            .sum::<Currency>();
+            .fold(0, |sum: Currency, amount: Currency| sum.saturating_add(amount));
 
         let nolan_out = self
             .to
@@ -661,7 +662,7 @@ impl Transaction {
                 }
                 slip.amount
             })
-            .sum::<Currency>();
+            .fold(0, |sum: Currency, amount: Currency| sum.saturating_add(amount));
 
         self.total_in = nolan_in;
         self.total_out = nolan_out;
